@@ -15,8 +15,13 @@ from .. import core, buildimpl
 from .. import sysutil as S
 from .. import pairutil as P
 from .. import runnerutil as R
+from .. import alignutil as U
 
 BUFS = [300, 512, 1000, 4000, None]
+
+
+def sysprops_revcomp(x):
+    return "".join({"A": "T", "C": "G", "G": "C", "T": "A"}.get(c, c) for c in reversed(x))
 
 
 def scratch(tag):
@@ -72,13 +77,19 @@ def case_argv(case, d):
         # ("=<suffix>": the whole suffix as given, e.g. an upper-case extension, which names the format just the same)
         suffix = case["fasta_out"][1:] if case["fasta_out"].startswith("=") else ".fasta" + case["fasta_out"]
         argv = [a[:-6] + suffix if a.endswith(".fastq") and not os.path.basename(a).startswith("in.") else a for a in argv]
+    if case.get("stdout_fasta"):
+        # no -o: the reads go to standard output, as FASTA because --fasta says so
+        k = argv.index("-o")
+        argv = ["--fasta"] + argv[:k] + argv[k + 2:]
     return argv
 
 
 def run_variant(case, d, cores, buf, sched):
     R.clear_outputs(d)
-    res = R.run_cli(case_argv(case, d), d, cores, buffer_size=buf, sched=sched)
+    res = R.run_cli(case_argv(case, d), d, cores, buffer_size=buf, sched=sched, start_method=("spawn" if case.get("spawn") and cores > 1 else None))
     res["files"] = R.collect_outputs(d)
+    if case.get("stdout_fasta"):
+        res["files"]["<stdout>"] = res.get("stdout", "").encode("ascii", errors="replace")
     res["report"] = R.report_without_volatile(d)
     return res
 
@@ -105,7 +116,7 @@ def diff_runs(a, b):
 def describe(case, d, cores, buf, sched):
     cfg = case["cfg"]
     return {"paired": case["paired"], "cfg": cfg.to_json(), "records": case["records"], "cores": cores, "buffer_size": buf, "sched": sched,
-            "side_files": bool(case.get("side_files")), "fasta_out": case.get("fasta_out"),
+            "side_files": bool(case.get("side_files")), "fasta_out": case.get("fasta_out"), "spawn": bool(case.get("spawn")), "stdout_fasta": bool(case.get("stdout_fasta")),
             "argv": [a.replace(d, "$D") for a in case_argv(case, d)]}
 
 
@@ -190,6 +201,20 @@ def check(ctx):
             tag_names(case)
             check_case(ctx, case, d, [(rng.choice([2, 3]), rng.choice([300, 512]), None), (2, 1000, rng.randrange(1, 10**6))], dist)
             dist["interleaved FASTA with '>' in headers"] = dist.get("interleaved FASTA with '>' in headers", 0) + 1
+        # another rare family: an 'anywhere' adapter (-b) with --revcomp, copies on both strands, small chunks: the per-adapter
+        # statistics (5'/3' histograms, matches on the reverse complement) are summed over the workers
+        for _ in range(2 if ctx.quick else 12):
+            ad = U.rand_seq(rng, 10, "ACGT")
+            cfg = S.Cfg(adapters=(("-b", "ad0=" + ad),), revcomp=True, fasta=rng.random() < 0.3, info_file=rng.random() < 0.5)
+            recs = []
+            for i in range(rng.randint(30, 60)):
+                body = U.rand_seq(rng, rng.choice([8, 15, 25]), "ACGT")
+                form = rng.random()
+                seq = ad + body if form < 0.25 else (body + ad if form < 0.5 else (sysprops_revcomp(ad + body) if form < 0.75 else (sysprops_revcomp(body + ad) if form < 0.9 else body)))
+                recs.append(("r%d" % i, seq, None if cfg.fasta else "".join(chr(33 + rng.randint(15, 40)) for _ in seq)))
+            case = {"paired": False, "cfg": cfg, "records": recs, "side_files": False, "fasta_out": None}
+            check_case(ctx, case, d, [(rng.choice([2, 3]), rng.choice([300, 512]), None), (2, 1000, rng.randrange(1, 10**6))], dist)
+            dist["-b with --revcomp"] = dist.get("-b with --revcomp", 0) + 1
         n = ctx.size(40, 400)
         for k in range(n):
             paired = rng.random() < 0.35
@@ -200,6 +225,9 @@ def check(ctx):
                 tag_names(case)
             b = case["cfg"].base if paired else case["cfg"]
             case["fasta_out"] = rng.choice(["", "", ".gz", "=.FASTA", "=.fa", "=.FA", "=.Fasta.gz"]) if (not b.fasta and rng.random() < 0.25) else None
+            case["spawn"] = rng.random() < 0.12
+            if not paired and not b.demux and not b.fasta and case["fasta_out"] is None and rng.random() < 0.1:
+                case["stdout_fasta"] = True
             ok = check_case(ctx, case, d, variants_for(rng, ctx.quick), dist)
             dist["paired" if paired else "single"] = dist.get("paired" if paired else "single", 0) + 1
             if ok and k < 40:
@@ -226,7 +254,8 @@ def case_from_doc(doc):
     else:
         cfg = S.Cfg.from_json(doc["cfg"])
         recs = [tuple(r) for r in doc["records"]]
-    return {"paired": doc["paired"], "cfg": cfg, "records": recs, "side_files": doc.get("side_files", False), "fasta_out": doc.get("fasta_out")}
+    return {"paired": doc["paired"], "cfg": cfg, "records": recs, "side_files": doc.get("side_files", False), "fasta_out": doc.get("fasta_out"),
+            "spawn": doc.get("spawn", False), "stdout_fasta": doc.get("stdout_fasta", False)}
 
 
 def replay(doc):
